@@ -84,6 +84,10 @@ func ValidateOutputs(args []any) (TypeToValue, error) {
 			if k != reflect.Struct && k != reflect.Map {
 				return nil, fmt.Errorf("need map or pointer to struct, got pointer to %s", k)
 			}
+			// A pointer to a nil map cannot be scanned into.
+			if err := validateValue(v); err != nil {
+				return nil, err
+			}
 		}
 		t := v.Type()
 		if _, ok := typeToValue[t]; ok {
